@@ -344,6 +344,7 @@ func (s *CatSc) checkIn(ro runOut, st *core.Stats, add func(clause, key, format 
 	for _, e := range ro.events {
 		if e.kind == "slow-callback" {
 			st.Fault("listener-callback-stalls")
+			st.ProbeIf(s.InHelper.Burst > 1000, "in:burst-of-more-than-1000-records-meets-a-stalled-listener")
 		}
 		if e.kind == "callback-returns" {
 			lastCb[e.a] = e.t // the listener was busy until now
